@@ -400,7 +400,10 @@ def shrink_violation(pid, v):
         budget[0] -= 1
         iv = harness_replay(hs, p)
         mv = model_replay(ms, p)
-        m = spec["cmp"](p, iv, mv)
+        try:
+            m = spec["cmp"](p, iv, mv)
+        except Exception:
+            return None
         if m is not None and m["kind"] == "violation":
             m.update(impl=iv[:4000], model=mv[:4000])
             return m
@@ -437,4 +440,24 @@ def shrink_items(payload):
             cand = items[:i] + items[i + k:]
             if cand:
                 yield " ".join(cand)
+        k //= 2
+
+
+def shrink_after_bar(payload):
+    """payloads of the form '<head>|<items>' : shrink the items only"""
+    head, _, items = payload.partition("|")
+    for cand in shrink_items(items):
+        yield head + "|" + cand
+
+
+def shrink_hex_last_field(payload):
+    """payloads whose last whitespace-separated field is a hex string: delete byte ranges"""
+    fields = payload.split(" ")
+    hx = fields[-1]
+    n = len(hx) // 2
+    k = n // 2
+    while k >= 1:
+        for i in range(0, n, k):
+            cand = hx[:2 * i] + hx[2 * (i + k):]
+            yield " ".join(fields[:-1] + [cand])
         k //= 2
